@@ -14,7 +14,9 @@ FamOfTy(ty, reg) == IF ty \in DOMAIN reg THEN reg[ty] ELSE ty
 
 Fam(v, reg) == IF v.ty \in OpaqueTy THEN v.o.fam ELSE FamOfTy(v.ty, reg)
 \* original Go type name (for reports); not affected by renames
-TypeName(v) == IF v.ty \in OpaqueTy THEN v.o.tn ELSE v.ty
+\* (os.PathError is an alias of io/fs.PathError, which the library's built-in
+\* migration encodes under the family os.PathError)
+TypeName(v) == IF v.ty \in OpaqueTy THEN v.o.tn ELSE IF v.ty = "osPathError" THEN "fsPathError" ELSE v.ty
 \* extension of the type mark (errbase.TypeKeyMarker): the domain
 Ext(v) == IF v.ty \in OpaqueTy THEN v.o.ext
           ELSE IF v.ty \in {"withDomain", "uKeyWrap"} THEN v.s ELSE <<>>
